@@ -189,6 +189,10 @@ def run(idx):
     allm = json.loads((OUT / "plan.json").read_text())
     m = allm[idx]
     res = dict(m, index=idx)
+    try:   # one worker per mutant (several xargs pools may run)
+        os.close(os.open(OUT / f"{idx}.lock", os.O_CREAT | os.O_EXCL))
+    except FileExistsError:
+        return {"index": idx, "status": "taken"}
     wt = f"/var/tmp/auto_{idx}"
     sh(f"git -C /repo worktree remove --force {wt}; rm -rf {wt}")
     r = sh(f"/verif/tools/mk_worktree.sh {wt}")
@@ -226,7 +230,8 @@ def run(idx):
         return res
     finally:
         sh(f"git -C /repo worktree remove --force {wt}; rm -rf {wt}")
-        (OUT / f"{idx}.json").write_text(json.dumps(res, indent=1))
+        if res.get("status") != "taken":
+            (OUT / f"{idx}.json").write_text(json.dumps(res, indent=1))
 
 
 def table():
